@@ -352,13 +352,116 @@ fn analyse(name: &str, log: &[String]) -> Option<Instance> {
     let order: Vec<u64> = order.into_iter().map(|p| p.1).collect();
     let pl: Vec<(u64, u64)> = pairs.iter().copied().collect();
     let hl: Vec<(u64, u64)> = handler_pairs.iter().copied().collect();
+    // ---- rank certificate for the progress condition: a layering of the graph's own constraints (creator before
+    //      created, every dependency of every access a job may hold before the job, a settling handler before a job
+    //      created with Unknown access), independent of the schedule this run happened to take
+    let ranks: Vec<(u64, u64)> = {
+        let mut disc_of: HashMap<u64, u64> = HashMap::new();
+        let mut job_of: HashMap<u64, u64> = HashMap::new();
+        let mut jobs: Vec<u64> = Vec::new();
+        let mut decls: Vec<(&JobDecl, Option<u64>)> = statics.iter().map(|j| (j, None)).collect();
+        for (h, acts) in &handlers {
+            for a in acts {
+                if let Action::Add(j) = a {
+                    decls.push((j, Some(*h)));
+                }
+            }
+        }
+        for (j, _) in &decls {
+            jobs.push(j.id);
+            disc_of.insert(j.id, j.disc);
+            job_of.insert(j.id, j.id);
+            for (a, d) in &j.also {
+                disc_of.insert(*a, *d);
+                job_of.insert(*a, j.id);
+            }
+        }
+        let mut preds: HashMap<u64, BTreeSet<u64>> = jobs.iter().map(|j| (*j, BTreeSet::new())).collect();
+        let add_acc = |j: u64, acc: &Acc, preds: &mut HashMap<u64, BTreeSet<u64>>| match acc {
+            Acc::None | Acc::Unknown => {}
+            Acc::All => {
+                for k in &jobs {
+                    if *k != j {
+                        preds.get_mut(&j).map(|p| p.insert(*k));
+                    }
+                }
+            }
+            Acc::Set(v) => {
+                for (spec, name) in v {
+                    if *spec {
+                        if let Some(o) = ids.ids.get(name).and_then(|i| job_of.get(i)) {
+                            preds.get_mut(&j).map(|p| p.insert(*o));
+                        }
+                    } else if let Some(dd) = discs.ids.get(name) {
+                        for (x, dx) in &disc_of {
+                            if dx == dd {
+                                preds.get_mut(&j).map(|p| p.insert(job_of[x]));
+                            }
+                        }
+                    }
+                }
+            }
+        };
+        for (j, creator) in &decls {
+            add_acc(j.id, &j.acc, &mut preds);
+            if let Some(c) = creator {
+                preds.get_mut(&j.id).map(|p| p.insert(*c));
+            }
+            if matches!(j.acc, Acc::Unknown) && creator.is_none() {
+                // the first handler that settles it
+                if let Some((h, _)) = handlers.iter().find(|(_, acts)| acts.iter().any(|a| matches!(a, Action::Rewrite(_, i, _) if *i == j.id) || matches!(a, Action::CompleteNow(i) if *i == j.id))) {
+                    preds.get_mut(&j.id).map(|p| p.insert(*h));
+                }
+            }
+        }
+        for acts in handlers.values() {
+            for a in acts {
+                if let Action::Rewrite(_, i, acc) = a {
+                    if preds.contains_key(i) {
+                        add_acc(*i, acc, &mut preds);
+                    }
+                }
+            }
+        }
+        // longest-path layering; a cycle leaves every rank at 0 (the Coq check then rejects the graph)
+        fn layer(j: u64, preds: &HashMap<u64, BTreeSet<u64>>, memo: &mut HashMap<u64, Option<u64>>, depth: usize) -> Option<u64> {
+            if let Some(r) = memo.get(&j) {
+                return *r; // None while on the stack = cycle
+            }
+            if depth > 100_000 {
+                return None;
+            }
+            memo.insert(j, None);
+            let mut r = 0u64;
+            for p in preds.get(&j).into_iter().flatten() {
+                if *p == j {
+                    return None;
+                }
+                r = r.max(layer(*p, preds, memo, depth + 1)? + 1);
+            }
+            memo.insert(j, Some(r));
+            Some(r)
+        }
+        let mut memo: HashMap<u64, Option<u64>> = HashMap::new();
+        let mut ok = true;
+        for j in &jobs {
+            if layer(*j, &preds, &mut memo, 0).is_none() {
+                ok = false;
+                break;
+            }
+        }
+        let mut out: Vec<(u64, u64)> = job_of.iter().map(|(x, o)| (*x, if ok { memo.get(o).copied().flatten().unwrap_or(0) + 1 } else { 0 })).collect();
+        out.sort();
+        out
+    };
     let coq = format!(
-        "check_instance {} {} {} {} {}",
+        "check_instance {} {} {} {} {} {}",
         g,
         tr,
         coq_list(&order, |i| coq_n(*i)),
         coq_list(&pl, |(a, b)| format!("({}, {})", coq_n(*a), coq_n(*b))),
-        coq_list(&hl, |(a, b)| format!("({}, {})", coq_n(*a), coq_n(*b)))
+        coq_list(&hl, |(a, b)| format!("({}, {})", coq_n(*a), coq_n(*b))),
+        coq_list(&ranks, |(a, b)| format!("({}, {})", coq_n(*a), coq_n(*b)))
     );
     let sample = json!({
         "source": name,
